@@ -296,7 +296,7 @@ pub fn handle_with(mut rq: Request, prog: &Prog, nonce: &str, client_len: usize,
                 sink.lock().unwrap()[slot].respond_err = Some(format!("{:?}: {}", e.kind(), e));
             }
         }
-        Finish::Writer { body_len, cuts, flush_mask, zero_writes } => {
+        Finish::Writer { body_len, cuts, flush_mask, zero_writes, how } => {
             let bytes = writer_bytes(id, *body_len);
             let mut w = rq.into_writer();
             let mut points: Vec<usize> = cuts.iter().map(|c| (*c as usize * bytes.len()) / 1024).collect();
@@ -308,7 +308,37 @@ pub fn handle_with(mut rq: Request, prog: &Prog, nonce: &str, client_len: usize,
                 if *zero_writes {
                     let _ = w.write(&[]);
                 }
-                let _ = w.write_all(&bytes[from..p]);
+                let piece = &bytes[from..p];
+                match how % 4 {
+                    1 => {
+                        let mut off = 0;
+                        while off < piece.len() {
+                            match w.write(&piece[off..]) {
+                                Ok(0) | Err(_) => break,
+                                Ok(n) => off += n,
+                            }
+                        }
+                    }
+                    2 => {
+                        // two slices per call, until everything is out
+                        let mut off = 0;
+                        while off < piece.len() {
+                            let mid = off + (piece.len() - off) / 2;
+                            let bufs = [std::io::IoSlice::new(&piece[off..mid]), std::io::IoSlice::new(&piece[mid..])];
+                            match w.write_vectored(&bufs) {
+                                Ok(0) | Err(_) => break,
+                                Ok(n) => off += n,
+                            }
+                        }
+                    }
+                    3 => {
+                        // write! goes through write_fmt; the pieces are ASCII
+                        let _ = write!(w, "{}", String::from_utf8_lossy(piece));
+                    }
+                    _ => {
+                        let _ = w.write_all(piece);
+                    }
+                }
                 if (flush_mask >> (i % 8)) & 1 == 1 {
                     let _ = w.flush();
                 }
